@@ -156,14 +156,8 @@ func c10R2(p *Prog, r *Report) {
 		if !ok || len(cl.Elts) != 1 {
 			return true
 		}
-		ch, ok := chainOf(info, cl.Elts[0])
-		if ok && ch.Root == nil && len(ch.Links) == 2 && ch.Links[0].Name == "If" && ch.Links[1].Name == "Block" && exprString(ch.Links[1].Args[0]) == "stmt" {
-			cond, ok := chainOf(info, ch.Links[0].Args[0])
-			if ok && cond.Root != nil && exprString(cond.Root) == "sourceID.Code" && cond.Has("Nil") != nil {
-				if s, _ := constString(info, cond.Has("Op").Args[0]); s == "!=" {
-					okGuard = true
-				}
-			}
+		if cond, blk, ok := p.nilGuardOf(info, cl.Elts[0]); ok && cond == "sourceID.Code" && strings.HasPrefix(blk, "stmt") {
+			okGuard = true
 		}
 		return true
 	})
@@ -278,28 +272,26 @@ func c10R3(p *Prog, r *Report) {
 	if nTrue < 3 {
 		r.Bad("builder.shouldCheckAgainstZero/categories", p.PosStr(fi.Decl.Pos()), fmt.Sprintf("only %d path(s) can return true; the three categories struct/basic/nillable are no longer all honoured", nTrue))
 	}
-	// false outside update
-	info := fi.Pkg.TypesInfo
-	okFirst := false
-	ast.Inspect(fi.Decl, func(n ast.Node) bool {
-		cc, ok := n.(*ast.CaseClause)
-		if !ok || len(cc.List) != 1 || okFirst {
-			return true
+	// true only in update contexts: no path reaches a may-be-true return without the method being an
+	// update method (ctx.Conf.UpdateTarget) or the position an update position (isUpdate)
+	isUpd := sf.Params[3]
+	goalTrue := func(in ssa.Instruction) bool {
+		ret, ok := in.(*ssa.Return)
+		if !ok {
+			return false
 		}
-		c := exprString(cc.List[0])
-		if strings.Contains(c, "!ctx.Conf.UpdateTarget") && strings.Contains(c, "!isUpdate") && len(cc.Body) == 1 {
-			if ret, ok := cc.Body[0].(*ast.ReturnStmt); ok && exprString(ret.Results[0]) == "false" {
-				okFirst = true
-			}
+		if k, isK := ret.Results[0].(*ssa.Const); isK && k.Value != nil && !constantBool(k) {
+			return false
 		}
-		return false
-	})
-	if okFirst {
-		r.OK("builder.shouldCheckAgainstZero/only for updates", p.PosStr(fi.Decl.Pos()), "first arm: neither update method nor update position → false")
+		return true
+	}
+	if g := existsPathAvoidingAtoms(sf, func(v ssa.Value) bool { return v == ssa.Value(isUpd) || loadsField(v, "UpdateTarget") }, goalTrue); g == nil {
+		r.OK("builder.shouldCheckAgainstZero/only for updates", p.PosStr(fi.Decl.Pos()), "every path to a possibly-true result has seen UpdateTarget or isUpdate true")
 	} else {
-		r.Bad("builder.shouldCheckAgainstZero/only for updates", p.PosStr(fi.Decl.Pos()), "the zero-value guard is no longer restricted to update methods / default:update positions")
+		r.Bad("builder.shouldCheckAgainstZero/only for updates", p.PosStr(g.Pos()), "a true result is reachable although neither the method is an update method nor the position an update position: the zero-value guard would appear in ordinary conversions")
 	}
 	// t only inside types.Identical
+	info := fi.Pkg.TypesInfo
 	tParam := fi.Obj.Type().(*types.Signature).Params().At(2)
 	badT := ""
 	walkStack(fi.Decl.Body, func(n ast.Node, stack []ast.Node) bool {
@@ -342,7 +334,7 @@ func c10R3(p *Prog, r *Report) {
 		sc := findCalls(sinfo, ifs.Cond, modPath+"/builder", "", "shouldCheckAgainstZero")[0]
 		srcT := exprString(sc.Args[1])
 		site := fmt.Sprintf("builder.(*Struct).Assign/zero guard#%d", n)
-		// then-branch: stmt = append(stmt, If(X.Code.Clone().Op("!=").Add(xtype.ZeroValue(srcT.T))).Block(S...)); else: stmt = append(stmt, S...)
+		// then-branch: stmt = append(stmt, <If(X != ZeroValue(srcT.T)){ S… }>) — in place or via a helper; else: stmt = append(stmt, S…)
 		okThen, okElse := false, false
 		var inner string
 		ast.Inspect(ifs.Body, func(q ast.Node) bool {
@@ -350,19 +342,9 @@ func c10R3(p *Prog, r *Report) {
 			if !ok {
 				return true
 			}
-			ch, ok := chainOf(sinfo, call)
-			if !ok || ch.Root != nil || len(ch.Links) != 2 || ch.Links[0].Name != "If" || ch.Links[1].Name != "Block" {
-				return true
-			}
-			cond, ok := chainOf(sinfo, ch.Links[0].Args[0])
-			if !ok || cond.Has("Op") == nil || cond.Has("Add") == nil {
-				return true
-			}
-			op, _ := constString(sinfo, cond.Has("Op").Args[0])
-			zv := callTo(sinfo, cond.Has("Add").Args[0], modPath+"/xtype", "", "ZeroValue")
-			if op == "!=" && zv != nil && exprString(zv.Args[0]) == srcT+".T" {
+			if zt, blk, ok := p.zeroGuardOf(sinfo, call); ok && zt == srcT+".T" {
 				okThen = true
-				inner = exprString(ch.Links[1].Args[0])
+				inner = strings.TrimSuffix(blk, "...")
 			}
 			return true
 		})
@@ -422,40 +404,8 @@ func c10R4(p *Prog, r *Report) {
 		info := cs.Pkg.TypesInfo
 		site := fmt.Sprintf("%s/ZeroValue(%s)#%d", cs.Encl.Name(), short(exprString(cs.Call.Args[0]), 30), n)
 		x := strings.TrimSuffix(exprString(cs.Call.Args[0]), ".T")
-		// find, among the statements before this call within the same guarded block, `if err := helper(x); err != nil { return … }`
-		ok := false
-		for i := len(cs.Stack) - 1; i >= 0 && !ok; i-- {
-			blk, isBlk := cs.Stack[i].(*ast.BlockStmt)
-			if !isBlk {
-				continue
-			}
-			for _, s := range blk.List {
-				if s.End() > cs.Call.Pos() {
-					break
-				}
-				ifs, isIf := s.(*ast.IfStmt)
-				if !isIf || ifs.Init == nil || !endsInExit(ifs.Body) {
-					continue
-				}
-				as, isAs := ifs.Init.(*ast.AssignStmt)
-				if !isAs || len(as.Rhs) != 1 {
-					continue
-				}
-				call, isC := ast.Unparen(as.Rhs[0]).(*ast.CallExpr)
-				if !isC || len(call.Args) != 1 || exprString(call.Args[0]) != x {
-					continue
-				}
-				if f, isF := calleeObj(info, call).(*types.Func); isF && isHelper(f) {
-					ok = true
-				}
-			}
-			// only the innermost block that is governed by shouldCheckAgainstZero counts
-			if i > 0 {
-				if ifs, isIf := cs.Stack[i-1].(*ast.IfStmt); isIf && len(findCalls(info, ifs.Cond, modPath+"/builder", "", "shouldCheckAgainstZero")) > 0 {
-					break
-				}
-			}
-		}
+		ok := p.comparabilityEstablished(cs.Encl, cs.Stack, cs.Call, x, isHelper, 2)
+		_ = info
 		if ok {
 			r.OK(site, p.PosStr(cs.Call.Pos()), "non-comparable structs are turned into a diagnostic before the comparison is emitted")
 		} else {
@@ -808,19 +758,15 @@ func c11R5(p *Prog, r *Report) {
 			}
 			return true
 		})
-		// buildStmt = append(buildStmt, jen.If(sourceID.Code.Clone().Op("!=").Nil()).Block(stmt...))
+		// buildStmt = append(buildStmt, <If(sourceID != nil){ stmt… }>) — in place or through a helper
 		guarded := false
 		ast.Inspect(br.Body, func(n ast.Node) bool {
 			call, ok := n.(*ast.CallExpr)
 			if !ok {
 				return true
 			}
-			ch, ok := chainOf(info, call)
-			if ok && ch.Root == nil && len(ch.Links) == 2 && ch.Links[0].Name == "If" && ch.Links[1].Name == "Block" && exprString(ch.Links[1].Args[0]) == "stmt" {
-				cond, ok := chainOf(info, ch.Links[0].Args[0])
-				if ok && cond.Root != nil && exprString(cond.Root) == "sourceID.Code" && cond.Has("Nil") != nil {
-					guarded = true
-				}
+			if cond, blk, ok := p.nilGuardOf(info, call); ok && cond == "sourceID.Code" && strings.HasPrefix(blk, "stmt") {
+				guarded = true
 			}
 			return true
 		})
@@ -864,4 +810,105 @@ func nodeText(n ast.Node) string {
 		return true
 	})
 	return sb.String()
+}
+
+// comparabilityEstablished: before node n (in an enclosing block) there is
+// `if err := <comparability helper>(x); err != nil { return … }`; if x is a parameter of an
+// unexported helper, the same must hold for the corresponding argument at every call site.
+func (p *Prog) comparabilityEstablished(fi *FuncInfo, stack []ast.Node, n ast.Node, x string, isHelper func(*types.Func) bool, depth int) bool {
+	info := fi.Pkg.TypesInfo
+	for i := len(stack) - 1; i >= 0; i-- {
+		var list []ast.Stmt
+		switch b := stack[i].(type) {
+		case *ast.BlockStmt:
+			list = b.List
+		case *ast.CaseClause:
+			list = b.Body
+		default:
+			continue
+		}
+		for _, s := range list {
+			if s.End() > n.Pos() {
+				break
+			}
+			ifs, isIf := s.(*ast.IfStmt)
+			if !isIf || ifs.Init == nil || !endsInExit(ifs.Body) {
+				continue
+			}
+			as, isAs := ifs.Init.(*ast.AssignStmt)
+			if !isAs || len(as.Rhs) != 1 {
+				continue
+			}
+			call, isC := ast.Unparen(as.Rhs[0]).(*ast.CallExpr)
+			if !isC || len(call.Args) != 1 || exprString(call.Args[0]) != x {
+				continue
+			}
+			if f, isF := calleeObj(info, call).(*types.Func); isF && isHelper(f) {
+				return true
+			}
+		}
+	}
+	if depth <= 0 || fi.Obj.Exported() {
+		return false
+	}
+	// x is a parameter?
+	sig := fi.Obj.Type().(*types.Signature)
+	idx := -1
+	for i := 0; i < sig.Params().Len(); i++ {
+		if sig.Params().At(i).Name() == x {
+			idx = i
+		}
+	}
+	if idx < 0 {
+		return false
+	}
+	nc := 0
+	for _, cs := range p.Calls() {
+		f, ok := cs.Callee.(*types.Func)
+		if !ok || f.Origin() != fi.Obj.Origin() {
+			continue
+		}
+		nc++
+		if cs.Encl == nil || idx >= len(cs.Call.Args) {
+			return false
+		}
+		if !p.comparabilityEstablished(cs.Encl, cs.Stack, cs.Call, exprString(cs.Call.Args[idx]), isHelper, depth-1) {
+			return false
+		}
+	}
+	return nc > 0
+}
+
+// zeroGuardOf recognises jen.If(<X>.Op("!=").Add(xtype.ZeroValue(<T>))).Block(<B>…) in place or
+// returned by an own helper; it returns the text of T and of B (helper parameters substituted).
+func (p *Prog) zeroGuardOf(info *types.Info, e ast.Expr) (zeroType, block string, ok bool) {
+	try := func(info *types.Info, e ast.Expr, subst map[types.Object]ast.Expr) (string, string, bool) {
+		ch, ok := chainOf(info, e)
+		if !ok || ch.Root != nil || len(ch.Links) != 2 || ch.Links[0].Name != "If" || ch.Links[1].Name != "Block" || len(ch.Links[0].Args) != 1 {
+			return "", "", false
+		}
+		cond, ok := chainOf(info, ch.Links[0].Args[0])
+		if !ok || cond.Has("Op") == nil || cond.Has("Add") == nil {
+			return "", "", false
+		}
+		if s, _ := constString(info, cond.Has("Op").Args[0]); s != "!=" {
+			return "", "", false
+		}
+		zv := callTo(info, cond.Has("Add").Args[0], modPath+"/xtype", "", "ZeroValue")
+		if zv == nil {
+			return "", "", false
+		}
+		var parts []string
+		for _, a := range ch.Links[1].Args {
+			parts = append(parts, substString(info, a, subst))
+		}
+		return substString(info, zv.Args[0], subst), strings.Join(parts, ", "), true
+	}
+	if z, b, ok := try(info, e, nil); ok {
+		return z, b, true
+	}
+	if ret, h, subst := p.helperReturn(info, e); ret != nil {
+		return try(h.Pkg.TypesInfo, ret, subst)
+	}
+	return "", "", false
 }
